@@ -558,6 +558,19 @@ Qed.
 
 (* ---------- try_with_min_align_and_capacity: the two assertions are ArenaModel.ctor_ok, the zero
    test and the layout are with_capacity's, and no chunk size is given to new_chunk_memory_details ---------- *)
+(* Alloc::realloc for &Bump, the route RawVec takes into the arena: the zero-size shortcut, the
+   layout asked for (old alignment, new size; an invalid one leaves with the error) and the
+   shrink / grow dispatch *)
+Lemma src_realloc_ok p l n :
+  call_fn src_fns [] "realloc_old_is_empty" [VN p; vlayout l; VN n] = Ret (VB (l_size l =? 0)) /\
+  call_fn src_fns [] "realloc_new_layout" [VN p; vlayout l; VN n]
+    = Ret (if layout_ok n (l_align l) then vlayout (mkLayout n (l_align l)) else VNone) /\
+  call_fn src_fns [] "realloc_shrinks" [VN p; vlayout l; VN n] = Ret (VB (n <=? l_size l)).
+Proof.
+  repeat match goal with |- _ /\ _ => split end; unfold call_fn; rsimpl; try reflexivity.
+  destruct (layout_ok n (l_align l)); rsimpl; reflexivity.
+Qed.
+
 Lemma src_ctor_ok m cap :
   let en := cenv m in
   call_fn src_fns en "ctor_align_is_pow2" [VN cap] = Ret (VB (pow2b m)) /\
